@@ -33,8 +33,9 @@ class Case:
 
 
 class Func:
-    def __init__(self, name, params, body, ret, kind="plain", glob=None):
+    def __init__(self, name, params, body, ret, kind="plain", glob=None, n_defaults=0):
         self.name = name
+        self.n_defaults = n_defaults   # the last n_defaults (scalar) parameters are declared `p=0`
         self.params = params   # list of (name, type)
         self.body = body
         self.ret = ret         # atom or None
@@ -160,20 +161,22 @@ class Gen:
             fs = [f for f in c.funcs if self.callable_here(f, env)]
             if not fs:
                 return []
-            f = rng.choice(fs)
+            ps = [f for f in fs if f.kind == "psink"]
+            f = rng.choice(ps) if ps and rng.random() < 0.5 else rng.choice(fs)
             args = []
             for (pn, pt) in f.params:
                 if pt == "s":
                     args.append(self.atom(env, 0.3))
                 else:
                     args.append(A(rng.choice(env[pt])))
+            args, spec = self.arg_mode(f, args)
             c.features.add("call-" + f.kind)
             if f.ret is not None:
                 x = self.fresh(env, "s", "x")
-                st = ("call", x, f.name, args)
+                st = ("call", x, f.name, args, spec)
                 self.declare(env, "s", x)
                 return [st]
-            return [("call", None, f.name, args)]
+            return [("call", None, f.name, args, spec)]
         if k == "new":
             o = self.fresh(env, "o", "o")
             self.declare(env, "o", o)
@@ -262,6 +265,45 @@ class Gen:
             return pre + [("while", b or [("pass",)])]
         return []
 
+    def arg_mode(self, f, args):
+        """Chooses how the call passes its arguments: all positional / all keywords in a random (mostly
+        non-alphabetical) order / a positional prefix followed by keywords / parameters with a default left out.
+        Returns (args aligned with f.params, None = left to its default; spec = [("pos" | "kw", index)] in textual order)."""
+        rng = self.rng
+        n = len(f.params)
+        args = list(args)
+        first_default = n - f.n_defaults
+        for i in range(first_default, n):
+            if rng.random() < 0.3:
+                args[i] = None
+        supplied = [i for i in range(n) if args[i] is not None]
+        mode = rng.choices(["pos", "kw", "mixed"], [4, 3, 2])[0] if n else "pos"
+        if mode == "pos":
+            # positional arguments must form a prefix: parameters after the first omitted one go by keyword
+            prefix = []
+            for i in range(n):
+                if args[i] is None:
+                    break
+                prefix.append(i)
+            rest = [i for i in supplied if i not in prefix]
+            rng.shuffle(rest)
+            spec = [("pos", i) for i in prefix] + [("kw", i) for i in rest]
+        else:
+            k = 0
+            if mode == "mixed":
+                while k < n and args[k] is not None and rng.random() < 0.6:
+                    k += 1
+            rest = [i for i in supplied if i >= k]
+            rng.shuffle(rest)
+            if len(rest) >= 2 and rest == sorted(rest, key=lambda i: f.params[i][0]):
+                rest.reverse()             # keyword order that is NOT the alphabetical one
+            spec = [("pos", i) for i in range(k)] + [("kw", i) for i in rest]
+        if any(t == "kw" for t, _ in spec):
+            self.case.features.add("call-keywords")
+        if any(a is None for a in args):
+            self.case.features.add("call-defaults")
+        return args, spec
+
     def init_stmt(self, t, v):
         if t == "s":
             return ("assign", v, C0)
@@ -283,8 +325,8 @@ class Gen:
         c = self.case
         n = rng.choice([0, 1, 2, 2, 3, 4])
         for _ in range(n):
-            kind = rng.choices(["plain", "setter", "getter", "mk", "use", "gset", "gget", "gret", "closure", "handler"],
-                               [5, 1.5, 1.5, 1.2, 1.5, 0.7, 0.7, 0.7, 0.8, 1.2])[0]
+            kind = rng.choices(["plain", "setter", "getter", "mk", "use", "gset", "gget", "gret", "closure", "handler", "psink"],
+                               [5, 1.5, 1.5, 1.2, 1.5, 0.7, 0.7, 0.7, 0.8, 1.2, 2.2])[0]
             name = f"fn{len(c.funcs)}"
             sites = {"src": [], "sink": []}
             if kind == "plain":
@@ -293,7 +335,19 @@ class Gen:
                 env = {"s": [p for p, _ in params], "o": [], "l": [], "d": [], "reserved": []}
                 body = self.gen_block(env, 1, rng.randint(0, 3), sites, True)
                 ret = self.atom(env, 0.15)
-                c.funcs.append(Func(name, params, body, ret, "plain"))
+                c.funcs.append(Func(name, params, body, ret, "plain", n_defaults=rng.choice([0, 0, 1, np_, np_])))
+            elif kind == "psink":
+                # every parameter goes to its OWN sink: which argument binds to which parameter is observable
+                np_ = rng.choice([2, 2, 3])
+                params = [(f"p{i}", "s") for i in range(np_)]
+                body = []
+                for pn, _ in params:
+                    if rng.random() < 0.8 or not body:
+                        body.append(("sink_call", self.new_sink(sites), A(pn), 0))
+                        c.n_sink += 1
+                rng.shuffle(body)
+                c.features.add("param-sinks")
+                c.funcs.append(Func(name, params, body, None, "psink", n_defaults=rng.choice([0, 0, 1, np_])))
             elif kind == "setter":
                 c.funcs.append(Func(name, [("po", "o"), ("pv", "s")], [("fieldw", "po", rng.choice(SCALAR_FIELDS), A("pv"))], None, "setter"))
             elif kind == "getter":
@@ -345,10 +399,12 @@ class Gen:
                 if f.ret is not None:
                     x = self.fresh(env, "s", "x")
                     self.declare(env, "s", x)
-                body.insert(rng.randint(1 if uses_gv else 0, len(body)), ("call", x, f.name, [C0]))
+                body.insert(rng.randint(1 if uses_gv else 0, len(body)), ("call", x, f.name, [C0], [("pos", 0)]))
         if env["s"] and rng.random() < 0.7:
             body.append(("sink_call", self.new_sink(sites), A(rng.choice(env["s"])), 0))
             c.n_sink += 1
+        if rng.random() < self.opts.get("p_chain", 0.4):
+            body += self.gen_chain(env, sites)
         c.body = body
         if c.funcs and rng.random() < self.opts.get("p_multifile", 0.2):
             movable = [f.name for f in c.funcs if f.kind in ("plain", "setter", "getter", "mk", "use") and
@@ -357,6 +413,64 @@ class Gen:
                 c.helper_funcs = rng.sample(movable, rng.randint(1, min(2, len(movable))))
                 c.features.add("multi-file")
         return c
+
+    def gen_chain(self, env, sites):
+        """A helper chain of depth 2-3 (each function hands its parameter to the next; the last one sinks it or the
+        value is returned all the way up), called 2-3 times from the top level with the tainted value at the first /
+        second / last call; sometimes an inner helper is also called directly (the same helper from several sites)."""
+        rng = self.rng
+        c = self.case
+        depth = rng.choice([2, 2, 3])
+        returning = rng.random() < 0.4
+        base = len(c.funcs)
+        names = [f"fn{base + i}" for i in range(depth)]
+        for i, nm in enumerate(names):
+            fsites = {"src": [], "sink": []}
+            last = i == depth - 1
+            pname = ["w", "v", "u"][i]
+            if last:
+                if returning:
+                    f = Func(nm, [(pname, "s")], [("assign", "t", A(pname))], A("t"), "chain")
+                else:
+                    c.n_sink += 1
+                    f = Func(nm, [(pname, "s")], [("sink_call", self.new_sink(fsites), A(pname), 0)], None, "chain")
+            else:
+                if returning:
+                    f = Func(nm, [(pname, "s")], [("call", "r", names[i + 1], [A(pname)], [("pos", 0)])], A("r"), "chain")
+                else:
+                    f = Func(nm, [(pname, "s")], [("call", None, names[i + 1], [A(pname)], [("pos", 0)])], None, "chain")
+            c.funcs.append(f)
+        n_calls = rng.choice([2, 2, 3])
+        hot = rng.choice(["first", "second", "last"])
+        hot_idx = {"first": 0, "second": min(1, n_calls - 1), "last": n_calls - 1}[hot]
+        c.features.add(f"chain-d{depth}-n{n_calls}-{hot}" + ("-ret" if returning else "-sink"))
+        out = []
+        t = "ct"
+        out.append(("src_call", t, self.new_src(sites)))
+        c.n_src += 1
+        self.declare(env, "s", t)
+        results = []
+        for k in range(n_calls):
+            arg = A(t) if k == hot_idx else C0
+            if returning:
+                x = f"cr{k}"
+                out.append(("call", x, names[0], [arg], [("pos", 0)]))
+                self.declare(env, "s", x)
+                results.append(x)
+            else:
+                out.append(("call", None, names[0], [arg], [("pos", 0)]))
+            if rng.random() < 0.25 and depth >= 2:
+                inner = rng.choice(names[1:])
+                if returning:
+                    out.append(("call", f"ci{k}", inner, [C0], [("pos", 0)]))
+                else:
+                    out.append(("call", None, inner, [C0], [("pos", 0)]))
+                c.features.add("chain-inner-direct")
+        if returning:
+            for x in results:
+                out.append(("sink_call", self.new_sink(sites), A(x), 0))
+                c.n_sink += 1
+        return out
 
     def calls_other(self, f):
         def walk(b):
@@ -474,7 +588,9 @@ class Renderer:
                 f, ln = self.sites[key]
                 self.emit(f"_sink({f}, {ln}, {at(s[2])})", ind)
         elif k == "call":
-            call = f"{s[2]}({', '.join(at(a) for a in s[3])})"
+            f = [g for g in self.case.funcs if g.name == s[2]][0]
+            parts = [at(s[3][i]) if how == "pos" else f"{f.params[i][0]}={at(s[3][i])}" for how, i in s[4]]
+            call = f"{s[2]}({', '.join(parts)})"
             self.emit(call if s[1] is None else f"{s[1]} = {call}", ind)
         elif k == "new":
             self.emit(f"{s[1]} = O()", ind)
@@ -525,7 +641,10 @@ class Renderer:
 
     def func(self, f, fi):
         m = self.mode
-        self.emit(f"def {f.name}({', '.join(p for p, _ in f.params)}):", 0)
+        if m == "plain":
+            self.stmt_lines[("def", fi)] = (self.file, len(self.lines[self.file]) + 1)
+        nd = len(f.params) - f.n_defaults
+        self.emit(f"def {f.name}({', '.join(p if i < nd else p + '=0' for i, (p, _) in enumerate(f.params))}):", 0)
         ln = len(self.lines[self.file])
         if f.kind == "handler":
             pn = f.params[0][0]
@@ -630,6 +749,7 @@ def ground_truth(case, sites):
 # may-dependence closure (upper bound)
 # --------------------------------------------------------------------------------------------------
 
+CONST0 = ("const", 0, 0)         # the literal 0 (one abstract value: lian shares the state of a constant)
 OUT_OBJ = ("h", "out", "*")      # the external object `out` of the field-write sink sites
 
 
@@ -657,6 +777,7 @@ class MayDep:
         self.cut_global_ret = cut_global_ret
         self.obj_smash = obj_smash
         self.symmetric = symmetric      # every copy-like edge also in the reverse direction (unification-style reading)
+        self.consts = False             # the literal 0 as a value node (only for other_value_pairs)
         self.funcs = {f.name: f for f in case.funcs}
         self.module_vars = set()
         self.collect_module_vars(case.body)
@@ -754,7 +875,8 @@ class MayDep:
                         seen.add(v)
                         todo.append(v)
             for n in seen:
-                self.src_of.setdefault(n, set()).add(site)
+                if n != CONST0:
+                    self.src_of.setdefault(n, set()).add(site)
 
     def build(self):
         self.allocs = 0
@@ -791,6 +913,8 @@ class MayDep:
 
     def dep(self, scope, a, dst, in_func_read=True, copy=True):
         n = self.atom_node(scope, a)
+        if n is None and self.consts and a is not None and a[0] == "const":
+            n = CONST0
         if n is None:
             return
         if scope != "<m>" and n[1] == "<m>":
@@ -838,6 +962,8 @@ class MayDep:
             elif k == "call":
                 f = self.funcs[s[2]]
                 for (pn, pt), a in zip(f.params, s[3]):
+                    if a is None:
+                        continue          # left to its default (a constant)
                     self.dep(scope, a, ("v", f.name, pn))
                     if f.kind == "handler" and a[0] == "var":
                         # a parameter source taints the incoming VALUE, which the caller's variables hold too
@@ -964,7 +1090,7 @@ def direct_uses(st):
     elif k == "sink_record":
         atoms = [st[2]]
     elif k == "call":
-        atoms = list(st[3])
+        atoms = [a for a in st[3] if a is not None]
     elif k in ("fieldw", "dict", "dictw"):
         atoms = [st[3]]
     elif k == "append":
@@ -973,7 +1099,12 @@ def direct_uses(st):
         atoms = list(st[2])
     elif k == "closure":
         atoms = [("var", st[2])]
-    return {a[1] for a in atoms if a[0] == "var"}
+    used = {a[1] for a in atoms if a[0] == "var"}
+    if k in ("fieldr", "listr", "dictr", "alias"):
+        used.add(st[2])          # the object / container read
+    elif k in ("fieldw", "append", "dictw"):
+        used.add(st[1])          # the object / container updated in place
+    return used
 
 
 def next_same_block_use(case, path):
@@ -1060,45 +1191,106 @@ def uses_inside(st, path, x):
 
 
 def must_reach_pairs(case):
-    """(scope, x, path of a definition D of x, path of a use U of x) such that D reaches U on EVERY execution that gets
-    to U: U follows D in D's own block — directly, or nested in a compound statement that follows D there — and no
-    statement between D and U, nor any statement of a compound statement that contains U or lies between them,
-    assigns x (for a loop this covers all iterations).  Returns of functions count as uses (("ret", fi))."""
+    """(scope, x, path of a definition D of x, path of a use U of x) such that D reaches U whenever execution passes D
+    and then gets to U: U follows D in D's own block or, after D's block has been left, in an enclosing block — directly
+    or nested in a later compound statement — and NO statement on the way assigns x: none after D in its block, none in
+    any compound statement that is passed or that contains U (for a loop this covers all iterations).  Returns of
+    functions count as uses (("ret", fi))."""
     out = []
-    def block(body, prefix, scope, fi, top):
+    def scan(body, start, prefix, scope, x, dpath):
+        """scans body[start:]; returns True when x is (possibly) re-assigned, i.e. the scan must stop"""
+        for j in range(start, len(body)):
+            t = body[j]
+            if t[0] in ("if", "while"):
+                if assigns_inside(t, x):
+                    return True
+                for u in uses_inside(t, prefix + (j,), x):
+                    out.append((scope, x, dpath, u))
+            else:
+                if x in direct_uses(t):
+                    out.append((scope, x, dpath, prefix + (j,)))
+                if assigned_var(t) == x:
+                    return True
+        return False
+    def block(body, prefix, scope, fi, conts):
+        """conts: enclosing blocks to continue in, innermost first: (body, index after the compound statement, prefix)"""
         for i, st in enumerate(body):
             if st[0] == "if":
-                block(st[1], prefix + (i, 1), scope, fi, False)
-                block(st[2], prefix + (i, 2), scope, fi, False)
+                block(st[1], prefix + (i, 1), scope, fi, [(body, i + 1, prefix)] + conts)
+                block(st[2], prefix + (i, 2), scope, fi, [(body, i + 1, prefix)] + conts)
                 continue
             if st[0] == "while":
-                block(st[1], prefix + (i, 1), scope, fi, False)
+                block(st[1], prefix + (i, 1), scope, fi, [(body, i + 1, prefix)] + conts)
                 continue
             x = assigned_var(st)
             if x is None:
                 continue
-            killed = False
-            for j in range(i + 1, len(body)):
-                t = body[j]
-                if t[0] in ("if", "while"):
-                    if assigns_inside(t, x):
-                        killed = True
-                        break
-                    for u in uses_inside(t, prefix + (j,), x):
-                        out.append((scope, x, prefix + (i,), u))
-                else:
-                    if x in direct_uses(t):
-                        out.append((scope, x, prefix + (i,), prefix + (j,)))
-                    if assigned_var(t) == x:
-                        killed = True
-                        break
-            if not killed and top and fi is not None:
+            dpath = prefix + (i,)
+            killed = scan(body, i + 1, prefix, scope, x, dpath)
+            for (pb, nxt, pp) in conts:
+                if killed:
+                    break
+                killed = scan(pb, nxt, pp, scope, x, dpath)
+            if not killed and fi is not None:
                 f = case.funcs[fi]
                 if f.ret is not None and f.ret[0] == "var" and f.ret[1] == x:
-                    out.append((scope, x, prefix + (i,), ("ret", fi)))
-    block(case.body, ("m",), "<m>", None, True)
+                    out.append((scope, x, dpath, ("ret", fi)))
+    block(case.body, ("m",), "<m>", None, [])
     for fi, f in enumerate(case.funcs):
-        block(f.body, ("f", fi), f.name, fi, True)
+        block(f.body, ("f", fi), f.name, fi, [])
+    return out
+
+
+def on_flow_path(md, xn, reach_src, sink_args):
+    """does variable node xn — or, for an object / container variable, one of the heap cells it points to — lie on a
+    dependence path source ->* . ->* designated sink argument?"""
+    cands = [xn] + [(k[0], k[1], k[2]) for k in md.edges.keys() if k[0] == "h" and k[1] in md.pts.get(xn, ())] + \
+            [n for n in md.copy_rev.keys() if n[0] == "h" and n[1] in md.pts.get(xn, ())]
+    for n in cands:
+        if n in reach_src:
+            rn = md.reach_from(n)
+            if any(a in rn for a in sink_args):
+                return True
+    return False
+
+
+def other_value_pairs(case, sites):
+    """(src site, sink site) pairs explained by C11/tainted-variable-taints-its-other-values: some variable / cell X
+    receives the source value, some value C (a variable, a cell or the literal 0) is copied into X as well — an OTHER
+    value X may hold — and the sink's designated argument holds C too (it is reached from C by copies only).  lian
+    tags X per id, then every abstract value X may hold, then every holder of such a value.  The earlier 'V' shape
+    (argument ->* X *<- source) is the case C = the argument."""
+    md = MayDep(case, sites, call_propagates=True)
+    mc = MayDep.__new__(MayDep)
+    # a second closure with the literal 0 as a node, for the copy ancestors / descendants
+    mc.__dict__.update({k: v for k, v in md.__dict__.items()})
+    mc.edges, mc.pts, mc.src_of, mc.copy_rev, mc.param_args, mc.sink_args = {}, {}, {}, {}, [], []
+    mc.global_read_edges = []
+    mc.consts = True
+    mc.build()
+    mc.finalize_param_sources()
+    fwd = {}
+    for b, as_ in mc.copy_rev.items():
+        for a in as_:
+            fwd.setdefault(a, set()).add(b)
+    def closure(start, graph):
+        seen, todo = set(start), list(start)
+        while todo:
+            u = todo.pop()
+            for v in graph.get(u, ()):
+                if v not in seen:
+                    seen.add(v)
+                    todo.append(v)
+        return seen
+    out = set()
+    for n, srcs in mc.src_of.items():
+        tainted = mc.reach_from(n)
+        values = closure(tainted, mc.copy_rev)          # everything copied into a tainted variable / cell
+        holders = closure(values, fwd)                  # everything those values are copied into
+        for (site, arg, designated) in mc.sink_args:
+            if designated and arg is not None and arg in holders:
+                for s_ in srcs:
+                    out.add((s_, site))
     return out
 
 
